@@ -432,7 +432,21 @@ def generate(repo='/repo'):
     parts.append('def equations : List (String × List String × List String) :=\n  [')
     parts.append(',\n   '.join('("%s", [%s], [%s])' % (r, ', '.join('"%s"' % x for x in l), ', '.join('"%s"' % x for x in rr))
                                for r, (l, rr) in sorted(eqs.items())))
-    parts.append(']\n\nend Lcapy.Gen\n')
+    parts.append(']\n\n')
+    convs = [n for n in tx.order if len(n) == 6 and n[1:5] == '_to_']
+    scal = [n for n in tx.order if tx.routes[n].get('route') not in ('section', 'self*TP', 'TP*self') and n not in convs]
+    secs = [n for n in tx.order if tx.routes[n].get('route') == 'section']
+    chains = [n for n in tx.order if n.endswith('_chain')]
+    parts.append('/-- dispatch tables for the line-protocol driver -/\n')
+    parts.append('def convTable : List (String × (M2 K → K → M2 K)) :=\n  [' + ',\n   '.join('("%s", %s)' % (n, n) for n in convs) + ']\n\n')
+    parts.append('def scalarTable : List (String × (M2 K → K → K)) :=\n  [' + ',\n   '.join('("%s", %s)' % (n, n) for n in scal) + ']\n\n')
+    parts.append('def chainTable : List (String × (M2 K → M2 K → M2 K)) :=\n  [' + ',\n   '.join('("%s", %s)' % (n, n) for n in chains) + ']\n\n')
+    def secfun(n):
+        ps = tx.routes[n]['params']
+        pat = '[' + ', '.join(ps) + ']'
+        return '("%s", fun l => match l with | %s => some (%s %s) | _ => none)' % (n, pat, n, ' '.join(ps))
+    parts.append('def sectionTable : List (String × (List K → Option (M2 K))) :=\n  [' + ',\n   '.join(secfun(n) for n in secs) + ']\n\n')
+    parts.append('end Lcapy.Gen\n')
     text = ''.join(parts)
     info = {'defs': tx.order, 'routes': tx.routes, 'unparsed': tx.unparsed, 'equations': eqs}
     return text, info
